@@ -17,7 +17,10 @@
 (* (`now`), the table of Basic-auth users (`users`) and the credential material of the current  *)
 (* spec (`mat`: which JWT secret is configured, which access keys with which secret).  A request *)
 (* can be presented, the clock can advance, the cluster store can deliver a new snapshot of the  *)
-(* credentials (ETCD mode: etcdUserCache.WatchChanges <- Syncer.SyncPrefix), the filter can be   *)
+(* credentials (ETCD mode: etcdUserCache.WatchChanges <- Syncer.SyncPrefix), the user file can   *)
+(* be EDITED (FILE mode: htpasswdUserCache.WatchChanges <- fsnotify; several edits may follow    *)
+(* each other at any pace; once the file has been left alone for a bounded time - Settle - the   *)
+(* table in effect is the one the file holds, whatever the history of edits), the filter can be  *)
 (* RECONFIGURED (hot update: a new generation is created from a new spec and initialised with    *)
 (* Inherit(previous generation), as the pipeline does; the new spec may rotate the JWT secret,   *)
 (* change the algorithm, add / remove / re-key access keys, change the Basic users, switch       *)
@@ -39,7 +42,8 @@ CONSTANTS Cfgs,          \* set of configuration records to explore
           MaxSync,       \* number of credential snapshots delivered in one behaviour
           Recfgs(_, _),  \* Recfgs(c, e): the hot updates explored from configuration c in environment e:
                          \* records [cfg, mat, users] (new spec; the users its Basic source then holds)
-          MaxReconf      \* number of hot updates in one behaviour
+          MaxReconf,     \* number of hot updates in one behaviour
+          MaxEdit        \* number of edits of the user file in one behaviour
 
 ----------------------------------------------------------------------------------------------
 (* Shapes.                                                                                      *)
@@ -115,7 +119,9 @@ UserTables == [KnownUsers -> {"v1", "v2", "gone"}]
 Users0     == [u \in KnownUsers |-> "v1"]
 (* what a request meets: the configuration and material of the running generation, the clock,  *)
 (* the user table                                                                               *)
-Env(c, t, us, m) == [cfg |-> c, now |-> t, users |-> us, jsec |-> m.jsec, aks |-> m.aks]
+(* stale: FILE mode - the tables the user file held since it was last known to be in effect (it  *)
+(* has been edited and the bounded time has not passed yet); {} when the source is settled      *)
+Env(c, t, us, m) == [cfg |-> c, now |-> t, users |-> us, jsec |-> m.jsec, aks |-> m.aks, stale |-> {}]
 BsPws   == {"right", "wrong", "rightColonX", "prefix", "empty", "nocolon", "padded", "userPadded", "trimmed"}
    \* rightColonX: the right password followed by ":" and more; prefix: the part of uColon's
    \* password before its first ':'; nocolon: credentials without any ':' at all;
@@ -188,11 +194,16 @@ VSig(c, r, e) ==
 (* presented password is exactly its current one - every other class of BsPws, including the    *)
 (* ones that differ by leading / trailing white space only, is another user or another password.*)
 (* Without a mode there is no user source, hence no configured user: nothing can be valid.      *)
+(* FILE mode, the user file edited less than the bounded time ago (e.stale # {}): the table in   *)
+(* effect is the current one, one of the earlier ones or something in between (the file is read  *)
+(* while it is written): credentials that are in none of these tables are invalid, everything    *)
+(* else is open until the source has settled.                                                    *)
+BsIn(r, us) == r.bs.user \in KnownUsers /\ us[r.bs.user] = r.bs.ver
 VBasic(c, r, e) ==
     IF c.basic = "nomode" THEN "bad"
-    ELSE IF /\ r.auth = "basic" /\ r.bs.user \in KnownUsers /\ e.users[r.bs.user] = r.bs.ver
-            /\ r.bs.pw = "right" /\ r.bs.b64 THEN "ok"
-    ELSE "bad"
+    ELSE IF ~(r.auth = "basic" /\ r.bs.pw = "right" /\ r.bs.b64) THEN "bad"
+    ELSE IF e.stale = {} THEN (IF BsIn(r, e.users) THEN "ok" ELSE "bad")
+    ELSE IF \E us \in {e.users} \cup e.stale : BsIn(r, us) THEN "free" ELSE "bad"
 
 Methods == {"hdr", "jwt", "sig", "basic"}
 Enabled(c, m) == CASE m = "hdr" -> c.hdr # "off" [] m = "jwt" -> c.jwt.on [] m = "sig" -> c.sig.on
@@ -240,44 +251,61 @@ Mutants(c, r) ==
 VARIABLES cfg,     \* the configuration of the running generation (changes only by Reconfigure)
           mat,     \* the credential material of its spec (changes only by Reconfigure)
           now,     \* the clock (ticks)
-          users,   \* the table of Basic-auth users (changes by Sync in ETCD mode, and by Reconfigure)
+          users,   \* the table of Basic-auth users (changes by Sync in ETCD mode, by Edit in FILE mode, and by Reconfigure)
+          stale,   \* FILE mode: the tables the user file held before, since the source was last settled
           req,     \* the request presented last
           res,     \* the observation for it
           at,      \* the configuration and environment in which it was presented
           n,       \* number of requests presented so far
           ns,      \* number of snapshots delivered so far
-          nr       \* number of hot updates so far
+          nr,      \* number of hot updates so far
+          ne       \* number of edits of the user file so far
 
-vars == <<cfg, mat, now, users, req, res, at, n, ns, nr>>
-Cur  == Env(cfg, now, users, mat)        \* what a request presented now meets
+vars == <<cfg, mat, now, users, stale, req, res, at, n, ns, nr, ne>>
+Cur  == [Env(cfg, now, users, mat) EXCEPT !.stale = stale]        \* what a request presented now meets
 
 NoReq == [hv |-> <<>>, auth |-> "none", tok |-> NoTok, ck |-> NoTok, sg |-> NoSg, bs |-> NoBs]
 NoRes == [acc |-> FALSE, status |-> -1, intact |-> TRUE]
 
 Init == /\ cfg \in Cfgs /\ mat = Mat0 /\ now = Now0 /\ users = Users0 /\ req = NoReq /\ res = NoRes
-        /\ at = Env(cfg, Now0, Users0, Mat0) /\ n = 0 /\ ns = 0 /\ nr = 0
+        /\ stale = {} /\ at = Env(cfg, Now0, Users0, Mat0) /\ n = 0 /\ ns = 0 /\ nr = 0 /\ ne = 0
 
 (* Validator.Handle on request r in the current environment, observed as o *)
 PresentAny(r, o) == /\ req' = r /\ res' = o /\ at' = Cur /\ n' = n + 1
-                    /\ UNCHANGED <<cfg, mat, now, users, ns, nr>>
+                    /\ UNCHANGED <<cfg, mat, now, users, stale, ns, nr, ne>>
 Present(r) == n < MaxPresent /\ \E o \in Outcomes(cfg, r, Cur) : PresentAny(r, o)
-Advance(d) == now + d <= MaxNow /\ now' = now + d /\ UNCHANGED <<cfg, mat, users, req, res, at, n, ns, nr>>
+Advance(d) == now + d <= MaxNow /\ now' = now + d /\ UNCHANGED <<cfg, mat, users, stale, req, res, at, n, ns, nr, ne>>
 (* etcdUserCache's watcher goroutine receives a snapshot of the credentials and swaps the table *)
 (* (one atomic step: htpasswd.File.ReloadFromReader replaces the map under its mutex)           *)
 Sync(t) == /\ cfg.basic = "etcd" /\ ns < MaxSync /\ t # users
-           /\ users' = t /\ ns' = ns + 1 /\ UNCHANGED <<cfg, mat, now, req, res, at, n, nr>>
+           /\ users' = t /\ ns' = ns + 1 /\ UNCHANGED <<cfg, mat, now, stale, req, res, at, n, nr, ne>>
+(* FILE mode: the user file is edited (htpasswd(1), an editor, a deployment tool): from now on it *)
+(* holds table t.  The validator's watcher goroutine is told by fsnotify and reloads the file    *)
+(* (htpasswdUserCache.WatchChanges -> htpasswd.File.Reload) some time later; nothing bounds the   *)
+(* number of edits before it has done so, nor the time between them.                              *)
+Edit(t) == /\ cfg.basic = "file" /\ ne < MaxEdit /\ t # users
+           /\ users' = t /\ stale' = stale \cup {users} /\ ne' = ne + 1
+           /\ UNCHANGED <<cfg, mat, now, req, res, at, n, ns, nr>>
+(* the file has been left alone for the bounded time: whatever the history of edits (one, several *)
+(* in quick succession), the table in effect is the one the file holds now                        *)
+Settle == /\ stale # {} /\ stale' = {}
+          /\ UNCHANGED <<cfg, mat, now, users, req, res, at, n, ns, nr, ne>>
 (* hot update (pipeline.reload): a new Validator is created from the new spec x.cfg / x.mat and   *)
 (* initialised with Inherit(running generation), the running generation is closed; from then on  *)
 (* requests meet the new generation.  x.users: what the Basic source of the new spec holds (a new *)
 (* user file, the store under the new prefix).  One atomic step as far as requests are concerned *)
 (* (the pipeline swaps the generation pointer).  The new spec is arbitrary - also the same.      *)
+(* (FILE mode: the new generation reads its user file when it is created - newHtpasswdUserCache - *)
+(* so it starts settled, whatever was pending for the previous one.)                              *)
 Reconfigure(x) == /\ nr < MaxReconf
-                  /\ cfg' = x.cfg /\ mat' = x.mat /\ users' = x.users /\ nr' = nr + 1
-                  /\ UNCHANGED <<now, req, res, at, n, ns>>
+                  /\ cfg' = x.cfg /\ mat' = x.mat /\ users' = x.users /\ stale' = {} /\ nr' = nr + 1
+                  /\ UNCHANGED <<now, req, res, at, n, ns, ne>>
 
 Next == \/ (n < MaxPresent /\ \E r \in Reqs(cfg) : Present(r))
         \/ Advance(1)
         \/ \E t \in UserTables : Sync(t)
+        \/ \E t \in UserTables : Edit(t)
+        \/ Settle
         \/ \E x \in Recfgs(cfg, Cur) : Reconfigure(x)
 Spec == Init /\ [][Next]_vars
 
@@ -325,14 +353,18 @@ NeverAfterExp ==
 (* conversely the new password of a user works as soon as the snapshot is applied               *)
 BasicOn     == cfg.basic \in {"file", "etcd"}
 BasicWasOn  == pcfg.basic \in {"file", "etcd"}
+(* (FILE mode: once the source has settled - whatever the number and pace of the edits before;   *)
+(* until then the credentials must at least be in one of the tables the file held since)          *)
 AcceptedThenRevoked ==
     [][ (Presented /\ res.acc /\ BasicOn /\ n' = n + 1 /\ req' = req /\ req.bs.user \in KnownUsers
-           /\ users[req.bs.user] # req.bs.ver) => ~res'.acc ]_vars
+           /\ \A us \in {users} \cup stale : us[req.bs.user] # req.bs.ver) => ~res'.acc ]_vars
 OnlyCurrentCredentials ==
     Presented /\ res.acc /\ BasicWasOn =>
-        req.auth = "basic" /\ req.bs.user \in KnownUsers /\ at.users[req.bs.user] = req.bs.ver
+        /\ req.auth = "basic" /\ req.bs.user \in KnownUsers
+        /\ \E us \in {at.users} \cup at.stale : us[req.bs.user] = req.bs.ver
+        /\ (at.stale = {} => at.users[req.bs.user] = req.bs.ver)
 EmptyTableRejectsAll ==
-    Presented /\ BasicWasOn /\ (\A u \in KnownUsers : at.users[u] = "gone") => ~res.acc
+    Presented /\ BasicWasOn /\ at.stale = {} /\ (\A u \in KnownUsers : at.users[u] = "gone") => ~res.acc
 
 (* temporal part, hot updates: what a generation admits depends on ITS spec only.  A request that *)
 (* was accepted and is presented again after a hot update is rejected when its token was not     *)
@@ -402,7 +434,7 @@ ISig(c, r, e, repaired) ==
 IBasic(c, r, e, repaired) ==
     \/ c.basic = "nomode"
     \/ /\ r.auth = "basic" /\ r.bs.b64 /\ r.bs.user \in KnownUsers
-       /\ e.users[r.bs.user] = r.bs.ver                      \* htpasswd table as last (re)loaded
+       /\ e.users[r.bs.user] = r.bs.ver                      \* htpasswd table as last (re)loaded (settled source)
        /\ IF repaired THEN r.bs.pw = "right"
           ELSE \/ r.bs.user \in {"uPlain", "uBlank"} /\ r.bs.pw \in {"right", "rightColonX"}
                \/ FALSE                                      \* uColon: parts[1] is never its password
@@ -417,8 +449,10 @@ ImplRes(c, r, e, repaired) ==
 
 (* (a mode-less basicAuth cannot be instantiated - refused by the spec validation -, so the skipped *)
 (* check of IBasic is not reachable: lead F11 of DESIGN 6 does not reproduce)                    *)
+(* (between an edit of the user file and Settle the table the code has loaded is not determined: *)
+(* this layer describes the settled source only)                                                 *)
 ImplRefines(repaired) ==
-    Presented /\ pcfg.basic # "nomode" => ImplRes(pcfg, req, at, repaired) \in Outcomes(pcfg, req, at)
+    Presented /\ pcfg.basic # "nomode" /\ at.stale = {} => ImplRes(pcfg, req, at, repaired) \in Outcomes(pcfg, req, at)
 RepairedImplRefines == ImplRefines(TRUE)
 PinnedImplRefines   == ImplRefines(FALSE)      \* expected to FAIL on the pinned tree: the leads
 =============================================================================
